@@ -20,6 +20,7 @@ import (
 	"github.com/cenkalti/rain/v2/torrent"
 	"github.com/cenkalti/rain/v2/zzverif/core"
 	"github.com/cenkalti/rain/v2/zzverif/refcodec"
+	"github.com/cenkalti/rain/v2/zzverif/vpool"
 )
 
 // ScriptItem is a stimulus the default policy issues when nothing else is pending and When holds.
@@ -120,6 +121,9 @@ func StdActions(w *World) []Action {
 				t.Answer(r, err)
 			}})
 		}
+	}
+	if vpool.Parked() > 0 {
+		acts = append(acts, Action{Label: "pool:hand-out-released-buffer", Do: func(w *World) { vpool.ReleaseOne() }})
 	}
 	for k, op := range w.Store.PendingOps() {
 		if o.HoldStorage {
